@@ -39,12 +39,19 @@ Back(line) ==
 
 (* A conversion does not edit the document it is given: the input marshalled again after *)
 (* the call (rd2 for ToV3, d3b for FromV3) is the document marshalled before it.         *)
+(* (rd3: the OpenAPI 2 document again after FromV3 - the OpenAPI 3 document shares parts of it.  A document whose JSON  *)
+(* text after the call is the text before it is logged as "<key>Same" only.)                                            *)
 InputKept(line) ==
    (IF "rd2" \in DOMAIN line /\ "rd" \in DOMAIN line
     THEN Ds("to_v3_changed_its_input", "input2", Diff(line.rd, line.rd2, <<>>)) ELSE {})
    \cup
    (IF "d3b" \in DOMAIN line /\ "d3" \in DOMAIN line
     THEN Ds("from_v3_changed_its_input", "input3", Diff(line.d3, line.d3b, <<>>)) ELSE {})
+   \cup
+   (IF "rd3" \in DOMAIN line /\ "rd" \in DOMAIN line
+    THEN Ds("from_v3_changed_the_v2_document", "input2", Diff(line.rd, line.rd3, <<>>)) ELSE {})
+   \cup
+   {V("input_not_marshalled_after_the_call", "", <<k>>, Absent, Absent) : k \in {"rd2Err", "d3bErr", "rd3Err"} \cap DOMAIN line}
 
 (* The document converted back is an OpenAPI 2 document that describes the same API, so the first sentence of the     *)
 (* statement holds of it as well: converted to OpenAPI 3 once more (d3a) it passes validation and describes that API.  *)
